@@ -22,7 +22,7 @@ CONSTANTS Layers,        \* set of layer names to enumerate
           Thorough,      \* BOOLEAN: larger bounds
           Mods,          \* record layer -> sampling modulus for the export (1 = every case)
           Seed,          \* sample selector
-          RandCases,     \* sequence of [q, db] records (generated, see tools/props/c11.py)
+          RandCases,     \* set of [q, db] records (generated, see tools/props/c11.py)
           CodeFlags      \* deviation rules the planner is believed to have (subset of AllFlags)
 
 ASSUME CodeFlags \subseteq AllFlags
@@ -47,6 +47,12 @@ Sel1(t, agg) == Sel("s1", t, Fill, Fill, Fill, agg)
 Query(kind, sels, ops, from, to, limit, vkey) ==
   [kind |-> kind, sels |-> sels, ops |-> ops, from |-> from, to |-> to, limit |-> limit, vkey |-> vkey]
 Search1(sel, from, to, limit) == Query("search", <<sel>>, <<>>, from, to, limit, "-")
+
+\* short constructors used by the generated RandCases
+RT(k, key, op, c, n, pfx) == [k |-> k, key |-> key, op |-> op, cs |-> c, cn |-> n, pfx |-> pfx]
+RA(fn, attr, op, c) == [fn |-> fn, attr |-> attr, op |-> op, c |-> c]
+RSel(sh, t, agg) == [sh |-> sh, t |-> t, agg |-> agg]
+RC(q, db) == [q |-> q, db |-> db]
 
 Span(a, b, nm, dur, ts) == [a |-> a, b |-> b, nm |-> nm, dur |-> dur, ts |-> ts]
 At(s, ts) == [s EXCEPT !.ts = ts]
@@ -137,7 +143,7 @@ ChainTerms == {StrT("a", "=", "sx", "."), StrT("a", "=", "sy", "span."), NumT("b
 ChainSels == {Sel1(t, g) : t \in ChainTerms, g \in {NoAgg, CountGt1}}
 ChainQ2 == {Query("search", <<s1, s2>>, <<op>>, 0, 3, lim, "-") : s1 \in ChainSels, s2 \in ChainSels, op \in {"&&", "||"}, lim \in {1, 5}}
 ChainQ3 == {Query("search", <<Sel1(t1, NoAgg), Sel1(t2, NoAgg), Sel1(t3, NoAgg)>>, <<o1, o2>>, 0, 3, 5, "-") :
-              t1 \in ChainTerms, t2 \in ChainTerms, t3 \in ChainTerms, o1 \in {"&&", "||"}, o2 \in {"&&", "||"}}
+              t1 \in ChainTerms, t2 \in ChainTerms, t3 \in ChainTerms \cup {DurT(">", 2)}, o1 \in {"&&", "||"}, o2 \in {"&&", "||"}}
 ChainQ == ChainQ2 \cup ChainQ3
 ChainSpans == {Span(a, b, "p", 3, ts) : a \in {"sx", "sy", "none"}, b \in {"n1", "n3"}, ts \in {1, 2}}
 ChainTraces == {<<s1>> : s1 \in ChainSpans} \cup {<<s1, s2>> : s1 \in ChainSpans, s2 \in ChainSpans}
@@ -147,7 +153,8 @@ UsesB(q) == \E i \in DOMAIN q.sels : q.sels[i].t[1].key = "b"
 HasAgg(q) == \E i \in DOMAIN q.sels : q.sels[i].agg.fn # "none"
 ChainDB(q) ==
   IF Len(q.sels) = 3 THEN {<<tr>> : tr \in {<<s1>> : s1 \in ChainSpans}}
-  ELSE IF q.limit = 5 THEN {<<tr>> : tr \in ChainTraces}
+  ELSE IF q.limit = 5 THEN {<<tr>> : tr \in (IF Thorough THEN ChainTraces
+                                               ELSE {<<s1>> : s1 \in ChainSpans} \cup {<<s1, s2>> : s1 \in ChainSpans, s2 \in ChainSpansB})}
   ELSE \* limit 1: two traces, which one is the most recent
        IF (UsesB(q) \/ HasAgg(q)) /\ ~Thorough THEN {}
        ELSE {<<tr1, tr2>> : tr1 \in ChainTracesSmall, tr2 \in (IF Thorough THEN ChainTracesSmall ELSE {<<s1>> : s1 \in ChainSpansB} \cup {<<Span("sx", "n3", "p", 3, 1), Span("sy", "n3", "p", 3, 2)>>, <<Span("sy", "n3", "p", 3, 1), Span("sx", "n3", "p", 3, 2)>>})}
@@ -178,7 +185,6 @@ Parts ==
   \cup (IF "agg" \in Layers THEN {[layer |-> "agg", q |-> q, i |-> 0] : q \in AggQ} ELSE {})
   \cup (IF "chain" \in Layers THEN {[layer |-> "chain", q |-> q, i |-> 0] : q \in ChainQ} ELSE {})
   \cup (IF "win" \in Layers THEN {[layer |-> "win", q |-> q, i |-> 0] : q \in WinQ} ELSE {})
-  \cup (IF "rand" \in Layers THEN {[layer |-> "rand", q |-> RandCases[i].q, i |-> i] : i \in DOMAIN RandCases} ELSE {})
 
 DBsOf(p) ==
   CASE p.layer = "term" -> TermDB
@@ -186,12 +192,13 @@ DBsOf(p) ==
     [] p.layer = "agg" -> AggDB(p.q)
     [] p.layer = "chain" -> ChainDB(p.q)
     [] p.layer = "win" -> WinDB(p.q)
-    [] p.layer = "rand" -> {RandCases[p.i].db}
 
 Init == cs = [st |-> "root"]
 Next ==
   \/ /\ cs.st = "root"
-     /\ \E p \in Parts : cs' = [st |-> "part", layer |-> p.layer, q |-> p.q, i |-> p.i]
+     /\ \/ \E p \in Parts : cs' = [st |-> "part", layer |-> p.layer, q |-> p.q, i |-> p.i]
+        \/ /\ "rand" \in Layers
+           /\ \E c \in RandCases : cs' = [st |-> "case", layer |-> "rand", q |-> c.q, db |-> c.db, h |-> QCode(c.q) + DbCode(c.db), i |-> 0]
   \/ /\ cs.st = "part"
      /\ \E db \in DBsOf(cs) :
           cs' = [st |-> "case", layer |-> cs.layer, q |-> cs.q, db |-> db, h |-> QCode(cs.q) + DbCode(db), i |-> cs.i]
@@ -200,7 +207,6 @@ Spec == Init /\ [][Next]_cs
 \* =========================================================================
 \* invariants (evaluated on the case states)
 IsCase == cs.st = "case"
-IsCaseOrNot == cs.st \in {"root", "part", "case"}
 Def == Eval(cs.q, cs.db)
 Mech == PlanEval(cs.q, cs.db, CodeFlags)
 Ideal == PlanEval(cs.q, cs.db, {})
